@@ -215,6 +215,21 @@ def _rewrap(args):
             logging.disable(logging.NOTSET)
         if open(dump, 'rb').read() != b'':
             res['problems'].append('raw dump of an empty stream is not empty')
+        # the dump is of the decoded stream, whatever becomes of playing it: strict mode on a stream that cannot be played (here: cut inside
+        # a packet header) raises, and the requested dump still holds exactly the decoded bytes
+        os.unlink(dump)
+        cut = info.decrypted_data[:len(info.decrypted_data) // 2] + b'\x05\x00\x00'
+        with open(out, 'wb') as f:
+            f.write(container.write_container(ext, raw_engine, [], cut))
+        logging.disable(logging.CRITICAL)
+        try:
+            replay_parser.ReplayParser(out, strict=True, raw_data_output=dump).get_info()
+        except Exception:
+            pass
+        finally:
+            logging.disable(logging.NOTSET)
+        if not os.path.exists(dump) or open(dump, 'rb').read() != cut:
+            res['problems'].append('strict mode, stream that fails to play: the requested raw dump %s' % ('was not written' if not os.path.exists(dump) else 'differs from the decoded stream'))
     except Exception as e:
         res['problems'].append('exception %r' % (e,))
     finally:
